@@ -134,6 +134,11 @@ def analyse_comb(ctx, fi: FuncInfo) -> Comb:
         if pc.op == "comp" and len(pc.args) == 3 and pc.args[0] in ("list", "gen") and pc.args[2].op == "gen" and \
                 len(pc.args[2].args) == 1 and pc.args[1].op == "tuple" and len(pc.args[1].args) == 1:
             posn = pc.args[1].args[0]
+        else:
+            # ... or collected tooth by tooth in a list that an earlier loop fills
+            ap = Evaluator.appended_elements(pc)
+            if ap is not None and ap[1] is not None:
+                posn = ap[0]
     else:
         f, in_axes, vargs = match_vmap(st)
         c.side_ok = len(vargs) == 2
